@@ -84,6 +84,11 @@ type cacheEnv struct {
 	// uptime > 0: the store's logical clock is advanced by that much before
 	// the first call, as if the cache had already served that many accesses.
 	uptime int64
+	// noCallback: build the cache without OnEvict (callbacks cannot be observed
+	// then, everything else still is). defaultSize: do not call WithSize (only
+	// meaningful for unit sizes).
+	noCallback  bool
+	defaultSize bool
 }
 
 // injectedPanic is the value a faulty user callback panics with.
@@ -132,7 +137,13 @@ func (e *cacheEnv) onEvict(k, v int) {
 type cacheMaker func(e *cacheEnv) cacheAPI
 
 func makeReal(e *cacheEnv) cacheAPI {
-	cfg := cache.LRU[int, int]().WithSize(e.sizeOf).OnEvict(e.onEvict)
+	cfg := cache.LRU[int, int]()
+	if !(e.defaultSize && !e.sized) {
+		cfg = cfg.WithSize(e.sizeOf)
+	}
+	if !e.noCallback {
+		cfg = cfg.OnEvict(e.onEvict)
+	}
 	if e.uptime > 0 {
 		cache.VerifAdvanceClock(cfg, e.uptime)
 	}
@@ -143,7 +154,13 @@ func makeReal(e *cacheEnv) cacheAPI {
 }
 
 func makeTwin(e *cacheEnv) cacheAPI {
-	cfg := cachefix.LRU[int, int]().WithSize(e.sizeOf).OnEvict(e.onEvict)
+	cfg := cachefix.LRU[int, int]()
+	if !(e.defaultSize && !e.sized) {
+		cfg = cfg.WithSize(e.sizeOf)
+	}
+	if !e.noCallback {
+		cfg = cfg.OnEvict(e.onEvict)
+	}
 	if e.uptime > 0 {
 		cachefix.VerifAdvanceClock(cfg, e.uptime)
 	}
